@@ -103,6 +103,27 @@ def op (h : Hist) (toks : List String) : Option (Hist × String) :=
     some (h, withBuf h.b s)
   | _ => none
 
+def splitOps : List String → List (List String)
+  | [] => [[]]
+  | t :: ts =>
+    match splitOps ts with
+    | [] => [[t]]
+    | g :: gs => if t = "/" then [] :: g :: gs else (t :: g) :: gs
+
+def stripBuf (s : String) : String := (s.splitOn " buf=").headD s
+
+/-- `O multi a / b / c` — push / remove / sort through one open `ListViewMut`: one `unpack_mut`,
+    then the operations in order (the view caches nothing, so each behaves as on a fresh view) -/
+def multi (h : Hist) (ops : List (List String)) : Option (Hist × String) :=
+  match guardL h.aL (unpackMut h.P h.a h.b) with
+  | .ok _ => do
+    let (h', rs) ← ops.foldlM (fun (acc : Hist × List String) o => do
+      let (h2, s) ← op acc.1 o
+      pure (h2, acc.2 ++ [stripBuf s])) (h, [])
+    pure (h', withBuf h'.b ("multi " ++ ";".intercalate rs))
+  | .err e => some (h, withBuf h.b ("multi " ++ errLine e))
+  | .panic => some (h, withBuf h.b "multi panic")
+
 def handle (st : St) (toks : List String) : Option (St × String) :=
   match toks with
   | ["lv", t, l, off, h] => do
@@ -120,6 +141,10 @@ def handle (st : St) (toks : List String) : Option (St × String) :=
     let a ← off.toNat?
     let b ← Hex.toBytes h
     pure (some ⟨P, a, b, prefixAlign l⟩, "begin")
+  | "O" :: "multi" :: rest =>
+    match st with
+    | some h => (multi h (splitOps rest)).map (fun (h', s) => (some h', s))
+    | none => none
   | "O" :: rest =>
     match st with
     | some h => (op h rest).map (fun (h', s) => (some h', s))
